@@ -565,3 +565,464 @@ Proof.
       apply (lp_perm (fun a b g _ => peP theta gq growth gridT a b g)
                (fun t g => peLnN theta growth gridT g t) evs evs' K NT Pm).
 Qed.
+
+(* ================================================================== Part 4a: all pieces equal = constant *)
+Lemma lk_repeat {T} (x d : T) n j : (j < n)%nat -> lk (repeat x n) j d = x.
+Proof.
+  revert j. induction n as [|n IH]; intros [|j] H; simpl; try lia; auto. apply IH. lia.
+Qed.
+Lemma Rsum_map_repeat {A} (f : A -> R) x n : Rsum (map f (repeat x n)) = INR n * f x.
+Proof. induction n as [|n IH]; [simpl; lra|]. rewrite S_INR. cbn [repeat map Rsum]. rewrite IH. lra. Qed.
+
+Lemma ksum_ext_Forall f g (l : list (ival R)) :
+  Forall (fun iv => i_zero iv = false ->
+                    mul NumR (choose2 NumR (i_k iv)) (f iv) = mul NumR (choose2 NumR (i_k iv)) (g iv)) l ->
+  ksum NumR f l = ksum NumR g l.
+Proof.
+  intros H. unfold ksum. f_equal. induction H as [|iv l Hiv H IH]; cbn [map]; [reflexivity|].
+  rewrite IH. f_equal. destruct (i_zero iv); [reflexivity|]. apply Hiv. reflexivity.
+Qed.
+Lemma csum_ext_Forall f g (l : list (ival R)) :
+  Forall (fun iv => i_end iv = Coal -> f iv = g iv) l -> csum NumR f l = csum NumR g l.
+Proof.
+  intros H. unfold csum. f_equal. induction H as [|iv l Hiv H IH]; cbn [map]; [reflexivity|].
+  rewrite IH. f_equal. destruct (i_end iv); try reflexivity. apply Hiv. reflexivity.
+Qed.
+Lemma csum_const x (s : list ev) : csum NumR (fun _ => x) (intervals s) = INR (sumN iscoal s) * x.
+Proof. exact (eq_trans (csum_times (fun _ => x) s) (coal_sum_const x s)). Qed.
+
+Lemma log_term_const theta (evs : list ev) :
+  csum NumR (fun _ => nln NumR theta) (intervals (sort_ev evs))
+  = mul NumR (ofNat NumR (count_kind iscoal evs)) (nln NumR theta).
+Proof.
+  rewrite csum_const, ofNat_INR, count_kind_sumN, (sumN_perm _ _ _ (sort_perm evs)). reflexivity.
+Qed.
+
+(* skygrid with all thetas equal, for EVERY grid (points beyond the root, before the first
+   coalescence, on event times, ...) and every event list whatsoever *)
+Theorem skygrid_all_equal_l theta (evs : list ev) :
+  keys_ok evs ->
+  skygrid_lp NumR (repeat theta (S (sumN isgrid evs))) evs = constant_lp NumR theta evs.
+Proof.
+  intros K. unfold skygrid_lp, constant_lp, lp.
+  assert (Ks : keys_ok (sort_ev evs)) by (eapply keys_ok_perm; [symmetry; apply sort_perm | exact K]).
+  pose proof (intervals_ok (sort_ev evs) Ks (sort_sorted evs K)) as OK.
+  f_equal.
+  - f_equal. apply ksum_ext_Forall. eapply Forall_impl; [|exact OK].
+    intros iv [_ [_ [_ [Hg _]]]] _. rewrite (sumN_perm _ _ _ (sort_perm evs)) in Hg.
+    rewrite lk_repeat by lia. reflexivity.
+  - rewrite <- log_term_const. apply csum_ext_Forall. eapply Forall_impl; [|exact OK].
+    intros iv [_ [_ [_ [Hg _]]]] _. rewrite (sumN_perm _ _ _ (sort_perm evs)) in Hg.
+    rewrite lk_repeat by lia. reflexivity.
+Qed.
+
+(* piecewise linear with all thetas equal *)
+Lemma lin_flat_repeat q m j : lin_flat (repeat q (S m)) m j = true.
+Proof.
+  unfold lin_flat. destruct (m <=? j)%nat eqn:E; [reflexivity|]. apply Nat.leb_gt in E.
+  rewrite !lk_repeat by lia. apply Qeq_bool_iff. reflexivity.
+Qed.
+Lemma lin_N_repeat theta gridT j t :
+  (j <= length gridT)%nat -> lin_N NumR (repeat theta (S (length gridT))) gridT j t = theta.
+Proof.
+  intros H. unfold lin_N. destruct (length gridT <=? j)%nat eqn:E.
+  - apply lk_repeat. lia.
+  - apply Nat.leb_gt in E. rewrite !lk_repeat by lia. cbn [add sub mul div NumR]. unfold Rdiv. ring.
+Qed.
+Theorem linear_all_equal_l q theta gridT (evs : list ev) :
+  keys_ok evs -> length gridT = sumN isgrid evs ->
+  linear_lp NumR (repeat q (S (length gridT))) (repeat theta (S (length gridT))) gridT evs
+  = constant_lp NumR theta evs.
+Proof.
+  intros K Hm. unfold linear_lp, constant_lp, lp.
+  assert (Ks : keys_ok (sort_ev evs)) by (eapply keys_ok_perm; [symmetry; apply sort_perm | exact K]).
+  pose proof (intervals_ok (sort_ev evs) Ks (sort_sorted evs K)) as OK.
+  f_equal.
+  - f_equal. apply ksum_ext_Forall. eapply Forall_impl; [|exact OK].
+    intros iv [_ [_ [_ [Hg _]]]] _. rewrite (sumN_perm _ _ _ (sort_perm evs)), <- Hm in Hg.
+    unfold lin_piece. rewrite lin_flat_repeat, lk_repeat by lia. reflexivity.
+  - rewrite <- log_term_const. apply csum_ext_Forall. eapply Forall_impl; [|exact OK].
+    intros iv [_ [_ [_ [Hg _]]]] _. rewrite (sumN_perm _ _ _ (sort_perm evs)), <- Hm in Hg.
+    rewrite lin_N_repeat by lia. reflexivity.
+Qed.
+
+(* skyride with all thetas equal, for every valid time vector: at most n tips for n-1
+   coalescences and never more coalescences than sampled lineages *)
+Definition istip (k : kind) : nat := match k with Tip => 1%nat | _ => 0%nat end.
+Definition tipcount (evs : list ev) (t : R) : nat := cntN (fun x => x <= t) (fun x => Rle_dec x t) istip evs.
+Lemma kcount_split (evs : list ev) t :
+  kcount evs t = (Z.of_nat (tipcount evs t) - Z.of_nat (ccount evs t))%Z.
+Proof.
+  unfold kcount, ccount, tipcount. induction evs as [|e r IH]; cbn [cntZ cntN]; [reflexivity|]. rewrite IH.
+  destruct (Rle_dec (etime e) t); destruct (ekind e); cbn [delta istip iscoal]; lia.
+Qed.
+Lemma choose2_small k : (k = 0 \/ k = 1)%Z -> choose2 NumR k = 0.
+Proof. intros [->| ->]; rewrite choose2_R; unfold choose2R; simpl; lra. Qed.
+
+Theorem skyride_all_equal_l theta (evs : list ev) :
+  keys_ok evs -> (sumN istip evs <= S (sumN iscoal evs))%nat -> (forall t, (0 <= kcount evs t)%Z) ->
+  skyride_lp NumR (repeat theta (sumN iscoal evs)) evs = constant_lp NumR theta evs.
+Proof.
+  intros K Hn Hk. unfold skyride_lp, constant_lp.
+  assert (Ks : keys_ok (sort_ev evs)) by (eapply keys_ok_perm; [symmetry; apply sort_perm | exact K]).
+  pose proof (intervals_ok (sort_ev evs) Ks (sort_sorted evs K)) as OK.
+  f_equal.
+  - f_equal. apply ksum_ext_Forall. eapply Forall_impl; [|exact OK].
+    intros iv [Hle [Hz [Hc _]]] Z.
+    assert (Hlt : i_a iv < i_b iv).
+    { destruct (Rle_lt_or_eq_dec _ _ Hle) as [H|H]; [exact H|]. apply Hz in H. congruence. }
+    destruct (Hc Hlt) as [Ek [_ Ec]].
+    unfold kcount in Ek. rewrite (cntZ_perm _ _ _ _ _ (sort_perm evs)) in Ek. fold (kcount evs (i_a iv)) in Ek.
+    unfold ccount in Ec. rewrite (cntN_perm _ _ _ _ _ (sort_perm evs)) in Ec. fold (ccount evs (i_a iv)) in Ec.
+    destruct (lt_dec (i_c iv) (sumN iscoal evs)) as [Hc1|Hc1].
+    + rewrite lk_repeat by exact Hc1. reflexivity.
+    + assert (H01 : (i_k iv = 0 \/ i_k iv = 1)%Z).
+      { specialize (Hk (i_a iv)). rewrite Ek. rewrite kcount_split in *.
+        pose proof (cntN_le_sum (fun x => x <= i_a iv) (fun x => Rle_dec x (i_a iv)) istip evs) as B1.
+        pose proof (cntN_le_sum (fun x => x <= i_a iv) (fun x => Rle_dec x (i_a iv)) iscoal evs) as B2.
+        fold (tipcount evs (i_a iv)) in B1. fold (ccount evs (i_a iv)) in B2. lia. }
+      rewrite (choose2_small _ H01). cbn [mul NumR]. lra.
+  - rewrite nsum_Rsum, Rsum_map_repeat, ofNat_INR, count_kind_sumN. reflexivity.
+Qed.
+
+(* ================================================================== Part 4b: scaling law *)
+Definition scale_ev (cq : Q) (c : R) (e : ev) : ev := mkEv (cq * ekey e)%Q (c * etime e) (ekind e).
+
+Lemma sumN_scale w cq c (evs : list ev) : sumN w (map (scale_ev cq c) evs) = sumN w evs.
+Proof. induction evs; simpl; congruence. Qed.
+Lemma cntZ_scale_le w cq c (evs : list ev) t : 0 < c ->
+  cntZ (fun x => x <= c * t) (fun x => Rle_dec x (c * t)) w (map (scale_ev cq c) evs)
+  = cntZ (fun x => x <= t) (fun x => Rle_dec x t) w evs.
+Proof.
+  intros Hc. induction evs as [|e r IH]; simpl; [reflexivity|]. rewrite IH.
+  destruct (Rle_dec (c * etime e) (c * t)); destruct (Rle_dec (etime e) t); try reflexivity; exfalso; nra.
+Qed.
+Lemma cntN_scale_le w cq c (evs : list ev) t : 0 < c ->
+  cntN (fun x => x <= c * t) (fun x => Rle_dec x (c * t)) w (map (scale_ev cq c) evs)
+  = cntN (fun x => x <= t) (fun x => Rle_dec x t) w evs.
+Proof.
+  intros Hc. induction evs as [|e r IH]; simpl; [reflexivity|]. rewrite IH.
+  destruct (Rle_dec (c * etime e) (c * t)); destruct (Rle_dec (etime e) t); try reflexivity; exfalso; nra.
+Qed.
+Lemma cntN_scale_lt w cq c (evs : list ev) t : 0 < c ->
+  cntN (fun x => x < c * t) (fun x => Rlt_dec x (c * t)) w (map (scale_ev cq c) evs)
+  = cntN (fun x => x < t) (fun x => Rlt_dec x t) w evs.
+Proof.
+  intros Hc. induction evs as [|e r IH]; simpl; [reflexivity|]. rewrite IH.
+  destruct (Rlt_dec (c * etime e) (c * t)); destruct (Rlt_dec (etime e) t); try reflexivity; exfalso; nra.
+Qed.
+
+Lemma pair_sum_scale F F' c p ts :
+  (forall a b, F' (c * a) (c * b) = F a b) -> pair_sum F' (c * p) (map (Rmult c) ts) = pair_sum F p ts.
+Proof. intros H. revert p. induction ts as [|t r IH]; intros p; simpl; [reflexivity|]. rewrite H, IH. reflexivity. Qed.
+Lemma isum_scale F F' c ts :
+  (forall a b, F' (c * a) (c * b) = F a b) -> isum F' (map (Rmult c) ts) = isum F ts.
+Proof. intros H. destruct ts as [|t r]; [reflexivity|]. simpl. apply pair_sum_scale, H. Qed.
+
+Lemma kterm_scale P P' cq c (evs : list ev) : 0 < c ->
+  (forall a b g k, a < b -> P' (c * a) (c * b) g k = P a b g k) ->
+  forall a b, kterm P' (map (scale_ev cq c) evs) (c * a) (c * b) = kterm P evs a b.
+Proof.
+  intros Hc H a b. unfold kterm.
+  destruct (Rlt_dec (c * a) (c * b)); destruct (Rlt_dec a b); try reflexivity; try (exfalso; nra).
+  unfold kcount, gcount, ccount. rewrite cntZ_scale_le, !cntN_scale_le by exact Hc. rewrite H by assumption.
+  reflexivity.
+Qed.
+
+Lemma sorted_scale c ts : 0 < c -> StronglySorted Rle ts -> StronglySorted Rle (map (Rmult c) ts).
+Proof.
+  intros Hc. induction 1 as [|x r S IH F]; simpl; constructor; auto.
+  rewrite Forall_forall in *. intros y Hy. apply in_map_iff in Hy. destruct Hy as [z [<- Hz]].
+  specialize (F z Hz). nra.
+Qed.
+Lemma times_scale cq c (evs : list ev) : map etime (map (scale_ev cq c) evs) = map (Rmult c) (map etime evs).
+Proof. rewrite !map_map. reflexivity. Qed.
+
+Lemma coal_sum_scale F F' cq c (evs : list ev) :
+  (forall e, In e evs -> ekind e = Coal -> F' (c * etime e) = F (etime e) + ln c) ->
+  coal_sum F' (map (scale_ev cq c) evs) = coal_sum F evs + INR (sumN iscoal evs) * ln c.
+Proof.
+  unfold coal_sum. induction evs as [|e r IH]; intros H; simpl; [lra|].
+  rewrite IH by (intros; apply H; [right|]; assumption).
+  destruct (ekind e) eqn:E; cbn [iscoal]; rewrite ?plus_INR; simpl; try lra.
+  rewrite (H e (or_introl eq_refl) E). lra.
+Qed.
+
+Lemma kingman_scaling P P' lnN lnN' cq c (evs : list ev) ts : 0 < c ->
+  (forall a b g k, a < b -> P' (c * a) (c * b) g k = P a b g k) ->
+  (forall e, In e evs -> ekind e = Coal -> lnN' (c * etime e) = lnN (etime e) + ln c) ->
+  kingman P' lnN' (map (scale_ev cq c) evs) (map (Rmult c) ts)
+  = kingman P lnN evs ts - INR (sumN iscoal evs) * ln c.
+Proof.
+  intros Hc HP HL. unfold kingman.
+  rewrite (isum_scale (kterm P evs) _ c ts (kterm_scale P P' cq c evs Hc HP)).
+  rewrite (coal_sum_scale lnN lnN' cq c evs HL). lra.
+Qed.
+
+Section Scaling.
+Variables (cq : Q) (c : R) (evs : list ev).
+Hypothesis Hc : 0 < c.
+Hypothesis K : keys_ok evs.
+Hypothesis K' : keys_ok (map (scale_ev cq c) evs).
+Let ts := map etime (sort_ev evs).
+Let evs' := map (scale_ev cq c) evs.
+Lemma ts_sorted : StronglySorted Rle ts.
+Proof. apply sorted_map_time, sort_sorted, K. Qed.
+Lemma ts_perm : Permutation ts (map etime evs).
+Proof. apply Permutation_map, sort_perm. Qed.
+Lemma ts'_sorted : StronglySorted Rle (map (Rmult c) ts).
+Proof. apply sorted_scale; [exact Hc | exact ts_sorted]. Qed.
+Lemma ts'_perm : Permutation (map (Rmult c) ts) (map etime evs').
+Proof. unfold evs'. rewrite times_scale. apply Permutation_map, ts_perm. Qed.
+
+(* times and the population size times c: log p - (n-1) ln c, n-1 = number of coalescences *)
+Theorem constant_scaling_l theta : 0 < theta ->
+  constant_lp NumR (c * theta) evs' = constant_lp NumR theta evs - INR (sumN iscoal evs) * ln c.
+Proof.
+  intros Ht.
+  rewrite (constant_eq_kingman_l (c * theta) evs' _ K' ts'_sorted ts'_perm).
+  rewrite (constant_eq_kingman_l theta evs ts K ts_sorted ts_perm).
+  apply kingman_scaling; [exact Hc | |].
+  - intros a b _ _ _. field. lra.
+  - intros e _ _. rewrite ln_mult by lra. lra.
+Qed.
+
+(* growth rate divided by c *)
+Theorem exponential_scaling_l theta gq gq' g : 0 < theta ->
+  Qeq_bool gq 0 = false -> Qeq_bool gq' 0 = false ->
+  exponential_lp NumR (c * theta) gq' (g / c) evs'
+  = exponential_lp NumR theta gq g evs - INR (sumN iscoal evs) * ln c.
+Proof.
+  intros Ht G G'.
+  rewrite (exponential_eq_kingman_l (c * theta) gq' (g / c) evs' _ G' K' ts'_sorted ts'_perm).
+  rewrite (exponential_eq_kingman_l theta gq g evs ts G K ts_sorted ts_perm).
+  apply kingman_scaling; [exact Hc | |].
+  - intros a b _ _ _.
+    replace (c * b * (g / c)) with (b * g) by (field; lra).
+    replace (c * a * (g / c)) with (a * g) by (field; lra).
+    replace (c * theta * (g / c)) with (theta * g) by (field; lra). reflexivity.
+  - intros e _ _. replace (- (c * etime e) * (g / c)) with (- etime e * g) by (field; lra).
+    pose proof (exp_pos (- etime e * g)).
+    rewrite Rmult_assoc, ln_mult; [lra | lra | nra].
+Qed.
+
+Lemma lk_map_scale (l : list R) j : lk (map (Rmult c) l) j 0 = c * lk l j 0.
+Proof. revert j. induction l as [|x l IH]; intros [|j]; simpl; try lra. apply IH. Qed.
+Lemma div_scale a b x : (c * b - c * a) / (c * x) = (b - a) / x.
+Proof.
+  unfold Rdiv. rewrite Rinv_mult.
+  replace ((c * b - c * a) * (/ c * / x)) with ((b - a) * / x * (c * / c)) by ring.
+  rewrite Rinv_r by lra. ring.
+Qed.
+
+Theorem skyride_scaling_l thetas :
+  Forall (fun x => 0 < x) thetas -> length thetas = sumN iscoal evs ->
+  skyride_lp NumR (map (Rmult c) thetas) evs'
+  = skyride_lp NumR thetas evs - INR (sumN iscoal evs) * ln c.
+Proof.
+  intros Hp Hl.
+  rewrite (skyride_eq_kingman_l (map (Rmult c) thetas) evs' _ K' ts'_sorted ts'_perm).
+  rewrite (skyride_eq_kingman_l thetas evs ts K ts_sorted ts_perm).
+  rewrite (isum_scale (kterm (fun a b _ k => (b - a) / lk thetas k 0) evs) _ c ts).
+  2:{ apply (kterm_scale _ _ cq c evs Hc). intros a b _ k _. rewrite lk_map_scale. apply div_scale. }
+  rewrite <- Hl. clear Hl.
+  assert (E : Rsum (map ln (map (Rmult c) thetas)) = Rsum (map ln thetas) + INR (length thetas) * ln c).
+  { induction Hp as [|x l Hx Hp IH]; [simpl; lra|].
+    cbn [map Rsum length]. rewrite IH, S_INR, ln_mult by lra. lra. }
+  rewrite E. lra.
+Qed.
+
+Lemma no_tie_scale : no_tie evs -> no_tie evs'.
+Proof.
+  intros NT x y Hx Hy Ex Ey. apply in_map_iff in Hx, Hy.
+  destruct Hx as [x0 [<- Hx]], Hy as [y0 [<- Hy]]. cbn [scale_ev etime ekind] in *.
+  specialize (NT x0 y0 Hx Hy Ex Ey). nra.
+Qed.
+
+Theorem skygrid_scaling_l thetas :
+  no_tie evs -> Forall (fun x => 0 < x) thetas -> length thetas = S (sumN isgrid evs) ->
+  skygrid_lp NumR (map (Rmult c) thetas) evs'
+  = skygrid_lp NumR thetas evs - INR (sumN iscoal evs) * ln c.
+Proof.
+  intros NT Hp Hl.
+  rewrite (skygrid_eq_kingman_l (map (Rmult c) thetas) evs' _ K' (no_tie_scale NT) ts'_sorted ts'_perm).
+  rewrite (skygrid_eq_kingman_l thetas evs ts K NT ts_sorted ts_perm).
+  apply kingman_scaling; [exact Hc | |].
+  - intros a b g _ _. rewrite lk_map_scale. apply div_scale.
+  - intros e _ _. unfold glt, evs'. rewrite cntN_scale_lt by exact Hc. rewrite lk_map_scale.
+    assert (0 < lk thetas (cntN (fun x => x < etime e) (fun x => Rlt_dec x (etime e)) isgrid evs) 0).
+    { pose proof (cntN_le_sum (fun x => x < etime e) (fun x => Rlt_dec x (etime e)) isgrid evs) as B.
+      rewrite lk_nth. rewrite Forall_forall in Hp. apply Hp, nth_In. lia. }
+    rewrite ln_mult by lra. lra.
+Qed.
+End Scaling.
+
+(* ================================================================== Part 3: closed-form piece integrals *)
+From Coquelicot Require Import Coquelicot.
+
+(* constant piece (also: any flat piece, the flat limit of the linear / exponential closed forms) *)
+Theorem integral_const_l N0 a b : is_RInt (fun _ => / N0) a b ((b - a) / N0).
+Proof.
+  replace ((b - a) / N0) with (scal (b - a) (/ N0)) by (unfold scal; simpl; unfold mult; simpl; reflexivity).
+  apply (is_RInt_const (V := R_NormedModule)).
+Qed.
+
+(* exponential piece  N(t) = N0 exp(-g (t - t0)),  g <> 0 :
+   int_a^b 1/N = (exp(g (b - t0)) - exp(g (a - t0))) / (N0 g) *)
+Theorem integral_exp_piece_l N0 g t0 a b : N0 <> 0 -> g <> 0 ->
+  is_RInt (fun t => / (N0 * exp (- g * (t - t0)))) a b
+          ((exp (g * (b - t0)) - exp (g * (a - t0))) / (N0 * g)).
+Proof.
+  intros HN Hg.
+  replace ((exp (g * (b - t0)) - exp (g * (a - t0))) / (N0 * g))
+    with (minus (exp (g * (b - t0)) / (N0 * g)) (exp (g * (a - t0)) / (N0 * g)))
+    by (unfold minus, plus, opp; simpl; field; split; assumption).
+  assert (E : forall x : R, exp (g * (x - t0)) / N0 = / (N0 * exp (- g * (x - t0)))).
+  { intros x. replace (- g * (x - t0)) with (- (g * (x - t0))) by ring. rewrite exp_Ropp.
+    field. split; [apply Rgt_not_eq, exp_pos | exact HN]. }
+  apply (is_RInt_ext (fun t => exp (g * (t - t0)) / N0)).
+  - intros x _. apply E.
+  - apply (is_RInt_derive (fun t => exp (g * (t - t0)) / (N0 * g)) (fun t => exp (g * (t - t0)) / N0)).
+    + intros x _. auto_derive; [exact I|]. unfold Rminus. field. split; assumption.
+    + intros x _. apply (ex_derive_continuous (fun t => exp (g * (t - t0)) / N0)). auto_derive. exact I.
+Qed.
+
+(* the form ExponentialCoalescent uses: N(t) = theta exp(-g t) *)
+Theorem integral_exp_l theta g a b : theta <> 0 -> g <> 0 ->
+  is_RInt (fun t => / (theta * exp (- t * g))) a b ((exp (b * g) - exp (a * g)) / (theta * g)).
+Proof.
+  intros Ht Hg. pose proof (integral_exp_piece_l theta g 0 a b Ht Hg) as H.
+  replace (g * (b - 0)) with (b * g) in H by ring. replace (g * (a - 0)) with (a * g) in H by ring.
+  assert (E : forall x : R, / (theta * exp (- g * (x - 0))) = / (theta * exp (- x * g))).
+  { intros x. f_equal. f_equal. f_equal. ring. }
+  eapply is_RInt_ext; [|exact H]. intros x _. apply E.
+Qed.
+
+(* linear piece  N(t) = N0 + (N1 - N0)(t - t0)/(t1 - t0),  N1 <> N0, N > 0 on [a,b], a <> b :
+   int_a^b 1/N = (b - a)(ln N(b) - ln N(a)) / (N(b) - N(a))  -- the form the code evaluates *)
+Theorem integral_linear_l N0 N1 t0 t1 a b :
+  t1 <> t0 -> N1 <> N0 -> a <> b ->
+  let N := fun t => N0 + (N1 - N0) * (t - t0) / (t1 - t0) in
+  (forall x, Rmin a b <= x <= Rmax a b -> 0 < N x) ->
+  is_RInt (fun t => / N t) a b ((b - a) * (ln (N b) - ln (N a)) / (N b - N a)).
+Proof.
+  intros Ht HN Hab N Hpos.
+  set (v := (N1 - N0) / (t1 - t0)).
+  assert (Hv : v <> 0).
+  { unfold v. intros E. apply HN. apply Rmult_eq_compat_r with (r := t1 - t0) in E.
+    unfold Rdiv in E. rewrite Rmult_assoc, Rinv_l, Rmult_1_r, Rmult_0_l in E by lra. lra. }
+  assert (HNv : forall t, N t = N0 + v * (t - t0)) by (intros t; unfold N, v; field; lra).
+  replace ((b - a) * (ln (N b) - ln (N a)) / (N b - N a)) with (minus (ln (N b) / v) (ln (N a) / v)).
+  2:{ unfold minus, plus, opp; simpl. rewrite !HNv.
+      replace (N0 + v * (b - t0) - (N0 + v * (a - t0))) with (v * (b - a)) by ring.
+      field. split; [lra | exact Hv]. }
+  apply (is_RInt_derive (fun t => ln (N t) / v) (fun t => / N t)).
+  - intros x Hx. specialize (Hpos x Hx). unfold N, v in *. auto_derive; [exact Hpos|].
+    unfold Rminus, Rdiv in *. set (D := N0 + (N1 + - N0) * (x + - t0) * / (t1 + - t0)) in *.
+    field. repeat split; lra.
+  - intros x Hx. specialize (Hpos x Hx).
+    apply (ex_derive_continuous (fun t => / N t)). unfold N in *. auto_derive.
+    unfold Rminus, Rdiv in *. lra.
+Qed.
+
+(* the flat limit N1 = N0: the integrand is the constant 1/N0 and the integral is duration / N0
+   (NOT duration / the last theta) *)
+Theorem integral_linear_flat_l N0 N1 t0 t1 a b : N1 = N0 ->
+  is_RInt (fun t => / (N0 + (N1 - N0) * (t - t0) / (t1 - t0))) a b ((b - a) / N0).
+Proof.
+  intros ->.
+  assert (E : forall x : R, / N0 = / (N0 + (N0 - N0) * (x - t0) / (t1 - t0))).
+  { intros x. f_equal. unfold Rdiv. ring. }
+  eapply is_RInt_ext; [|apply integral_const_l]. intros x _. apply E.
+Qed.
+
+(* ---- the model's piece functions ARE these integrals of 1/N, N = the model's own N ---- *)
+Theorem lin_piece_is_integral_l thq th gridT (iv : ival R) :
+  let j := i_g iv in
+  (j < length gridT)%nat -> lin_flat thq (length gridT) j = false ->
+  lk th (S j) 0 <> lk th j 0 -> g0 NumR gridT (S j) <> g0 NumR gridT j -> i_a iv <> i_b iv ->
+  (forall x, Rmin (i_a iv) (i_b iv) <= x <= Rmax (i_a iv) (i_b iv) -> 0 < lin_N NumR th gridT j x) ->
+  is_RInt (fun t => / lin_N NumR th gridT j t) (i_a iv) (i_b iv) (lin_piece NumR thq th gridT iv).
+Proof.
+  intros j Hj Hf Hth Hg Hab Hpos. unfold lin_piece. fold j. rewrite Hf.
+  unfold lin_N in *. assert (E : (length gridT <=? j)%nat = false) by (apply Nat.leb_gt; exact Hj).
+  rewrite E in *.
+  exact (integral_linear_l (lk th j 0) (lk th (S j) 0) (g0 NumR gridT j) (g0 NumR gridT (S j))
+           (i_a iv) (i_b iv) Hg Hth Hab Hpos).
+Qed.
+
+Theorem lin_piece_flat_is_integral_l thq th gridT (iv : ival R) :
+  let j := i_g iv in
+  lin_flat thq (length gridT) j = true ->
+  ((length gridT <= j)%nat \/ lk th (S j) 0 = lk th j 0) ->
+  is_RInt (fun t => / lin_N NumR th gridT j t) (i_a iv) (i_b iv) (lin_piece NumR thq th gridT iv).
+Proof.
+  intros j Hf H. unfold lin_piece. fold j. rewrite Hf. unfold lin_N.
+  destruct (length gridT <=? j)%nat eqn:E.
+  - exact (integral_const_l (lk th j 0) (i_a iv) (i_b iv)).
+  - destruct H as [H|H]; [apply Nat.leb_gt in E; lia|].
+    exact (integral_linear_flat_l (lk th j 0) (lk th (S j) 0) (g0 NumR gridT j) (g0 NumR gridT (S j))
+             (i_a iv) (i_b iv) H).
+Qed.
+
+Theorem pe_piece_is_integral_l theta gq growth gridT (iv : ival R) :
+  let j := i_g iv in
+  Qeq_bool (lk gq j 0%Q) 0 = false -> lk growth j 0 <> 0 ->
+  is_RInt (fun t => / exp (pe_lnN NumR (ln theta) growth gridT j t)) (i_a iv) (i_b iv)
+          (pe_piece NumR (ln theta) gq growth gridT iv).
+Proof.
+  intros j Hq Hg. unfold pe_piece. fold j. rewrite Hq.
+  set (L := pe_lnNg NumR (ln theta) growth gridT j). set (g := lk growth j 0) in *.
+  set (t0 := g0 NumR gridT j).
+  assert (E : forall x : R, / (exp L * exp (- g * (x - t0))) = / exp (pe_lnN NumR (ln theta) growth gridT j x)).
+  { intros x. f_equal. unfold pe_lnN. cbn [Num.zero sub mul NumR]. fold L g t0. rewrite <- exp_plus. f_equal. ring. }
+  eapply is_RInt_ext; [intros x _; apply E|].
+  exact (integral_exp_piece_l (exp L) g t0 (i_a iv) (i_b iv) (Rgt_not_eq _ _ (exp_pos L)) Hg).
+Qed.
+
+Theorem pe_piece_flat_is_integral_l theta gq growth gridT (iv : ival R) :
+  let j := i_g iv in
+  Qeq_bool (lk gq j 0%Q) 0 = true -> lk growth j 0 = 0 ->
+  is_RInt (fun t => / exp (pe_lnN NumR (ln theta) growth gridT j t)) (i_a iv) (i_b iv)
+          (pe_piece NumR (ln theta) gq growth gridT iv).
+Proof.
+  intros j Hq Hg. unfold pe_piece. fold j. rewrite Hq.
+  set (L := pe_lnNg NumR (ln theta) growth gridT j).
+  assert (E : forall x : R, / exp L = / exp (pe_lnN NumR (ln theta) growth gridT j x)).
+  { intros x. f_equal. unfold pe_lnN. cbn [Num.zero sub mul NumR]. fold L. rewrite Hg. f_equal. ring. }
+  eapply is_RInt_ext; [intros x _; apply E|].
+  exact (integral_const_l (exp L) (i_a iv) (i_b iv)).
+Qed.
+
+(* ================================================================== the entry points the harness runs *)
+(* events built from exact inputs (time = Q2R key) meet the hypotheses of the theorems above *)
+Lemma mk_events_in tips coals grid (e : ev) :
+  In e (mk_events NumR tips coals grid) ->
+  exists q, e = mkEv q (Q2R q) (ekind e) /\
+            ((ekind e = Tip /\ In q tips) \/ (ekind e = Coal /\ In q coals) \/ (ekind e = Grid /\ In q grid)).
+Proof.
+  unfold mk_events. intros He. apply in_app_or in He. destruct He as [He|He]; [|apply in_app_or in He; destruct He as [He|He]];
+    apply in_map_iff in He; destruct He as [q [<- Hq]]; exists q; cbn [ekind]; auto 6.
+Qed.
+Lemma mk_events_keys_ok tips coals grid : keys_ok (mk_events NumR tips coals grid).
+Proof.
+  intros a b Ha Hb. destruct (mk_events_in _ _ _ a Ha) as [qa [-> _]]. destruct (mk_events_in _ _ _ b Hb) as [qb [-> _]].
+  cbn [ekey etime]. rewrite Qle_bool_iff. split; [apply Qle_Rle | apply Rle_Qle].
+Qed.
+Lemma mk_events_no_tie tips coals grid :
+  (forall c g, In c coals -> In g grid -> ~ (c == g)%Q) -> no_tie (mk_events NumR tips coals grid).
+Proof.
+  intros H x y Hx Hy Ex Ey.
+  destruct (mk_events_in _ _ _ x Hx) as [qx [-> Kx]]. destruct (mk_events_in _ _ _ y Hy) as [qy [-> Ky]].
+  cbn [ekind etime] in *. rewrite Ex in Kx. rewrite Ey in Ky.
+  destruct Kx as [[? _]|[[_ Hc]|[? _]]]; try discriminate.
+  destruct Ky as [[? _]|[[? _]|[_ Hg]]]; try discriminate.
+  intros E. apply (H qx qy Hc Hg). apply eqR_Qeq. exact E.
+Qed.
+(* for every event list with consistent keys the sorted time sequence exists (non-vacuity of the
+   hypotheses "ts sorted, ts a permutation of the times") *)
+Lemma sorted_times_exist (evs : list ev) : keys_ok evs ->
+  exists ts, StronglySorted Rle ts /\ Permutation ts (map etime evs).
+Proof.
+  intros K. exists (map etime (sort_ev evs)). split; [apply ts_sorted, K | apply ts_perm].
+Qed.
